@@ -15,7 +15,6 @@
 (*   [k |-> "struct"]                                                      *)
 (***************************************************************************)
 EXTENDS Naturals, Integers, Sequences, FiniteSets, CelValue
-LOCAL INSTANCE SequencesExt
 LOCAL ZZ == INSTANCE BigInt
 LOCAL BF == INSTANCE CelBuiltins
 
@@ -210,10 +209,10 @@ RetStep(c, F) ==
     [] fr.f = "compInit" -> { Push(c0, [f |-> "compRange", c |-> fr.c, init |-> v], fr.c.range) }
     [] fr.f = "compRange" ->
          LET open(items) == LoopAt([c0 EXCEPT !.env = Append(@, << << fr.c.accu, fr.init >> >>)], fr.c, items, 1) IN
-         CASE v.t = "list" -> { open(v.e) }
+         (CASE v.t = "list" -> { open(v.e) }
            [] v.t = "map"  -> IF v.ord \/ Len(v.e) <= 1 THEN { open([i \in 1..Len(v.e) |-> v.e[i][1]]) }
                               ELSE { open([i \in 1..Len(v.e) |-> v.e[p[i]][1]]) : p \in Perms(Len(v.e)) }       \* CompChooseOrder
-           [] OTHER -> { MarkDev(SetCtrl(c0, Raise({"type"}, "")), TRUE) }
+           [] OTHER -> { MarkDev(SetCtrl(c0, Raise({"type"}, "")), TRUE) })
     [] fr.f = "compCond" ->
          { IF Dev_Truthiness(v)
            THEN MarkDev(Push([c0 EXCEPT !.env = BindInner(@, fr.c.var, fr.items[fr.i])],
